@@ -211,6 +211,12 @@ func c14history(r *rand.Rand, size int64) []c14op {
 			switch wh {
 			case 1:
 				off = int64(r.Intn(20000)) - 10000
+				switch r.Intn(6) {
+				case 0:
+					off = 0 // "where am I": must still lift a SeekRange limit
+				case 1:
+					off = int64(r.Intn(5)) - 2
+				}
 			case 2:
 				off = -pickOff()
 				if r.Intn(8) == 0 {
@@ -223,6 +229,9 @@ func c14history(r *rand.Rand, size int64) []c14op {
 			if r.Intn(40) == 0 {
 				off = -1 - int64(r.Intn(1000))
 				wh = 0
+			}
+			if wh == 0 && r.Intn(8) == 0 {
+				off = -7777777 // resolved to the current position when executed
 			}
 			ops = append(ops, c14op{Kind: "seek", Off: off, Whence: wh})
 		case p < 95:
@@ -331,6 +340,9 @@ func c14run(f *c14file, rd *rac.Reader, ops []c14op, closed *string) (kind, what
 				seekMidChunk = false
 			}
 		case "seek":
+			if op.Whence == io.SeekStart && op.Off == -7777777 {
+				op.Off = pos // generated as "seek to where the cursor already is"
+			}
 			got, err := rd.Seek(op.Off, op.Whence)
 			var np int64
 			bad := false
